@@ -16,16 +16,14 @@ def run(ctx):
     binp = snapalg.build()
     run_ = snapalg.Run(ctx)
     if ctx.tier == "quick":
-        fams_laws = ["CorruptSnap", "CorruptDelta"]
-        fams_a = ["CorruptSnap", "CorruptDelta", "BigSnap", "BigDelta"]
-        nb, seeds, par = 1200, 1, 4
+        fams_laws = ["CorruptSnap", "CorruptDelta", "Registry"]
+        fams_a = ["CorruptSnap", "CorruptDelta", "BigSnap", "BigDelta", "Registry"]
+        nb, seeds, par = 600, 1, 4
     else:
-        fams_laws = ["CorruptSnap", "CorruptDelta", "BigSnap", "BigDelta"]
-        fams_a = ["CorruptSnap", "CorruptDelta", "BigSnap", "BigDelta"]
+        fams_laws = ["CorruptSnap", "CorruptDelta", "BigSnap", "BigDelta", "Registry"]
+        fams_a = ["CorruptSnap", "CorruptDelta", "BigSnap", "BigDelta", "Registry"]
         nb, seeds, par = 6000, 6, 8
-    snapalg.do_laws(ctx, fams_laws, workers=2, par=2 if ctx.tier == "quick" else 4)
-    snapalg.do_direction_a(ctx, run_, binp, fams_a, par=par, split_parts=par)
-    paths = snapalg.do_direction_b(ctx, run_, binp, "parse", nb, par=par, split_parts=par, seeds=seeds)
+    paths = snapalg.run_all(ctx, run_, binp, fams_laws, fams_a, "parse", nb, seeds=seeds, par=par, law_workers=2)
     if ctx.tier == "thorough" and paths:
         def mut(ev):
             tgt = ev["raw"] if "raw" in ev else ev["d"]
